@@ -186,7 +186,7 @@ __CPROVER_loop_invariant(0 <= bin && bin <= bins && bins == self->bins && self->
 __CPROVER_loop_invariant(bin > nv_b ==> (self->m_hash2tables.g == nv_b && NV_IDENT(self->m_tables.g, nv_const_g))) \
 __CPROVER_decreases(bins - bin)
 /* ---- score_kbest: row fv stands for the bin sorted at position fv; the tracked bin is the one sorted at the tracked row */
-#define NV_KB_STORED(self, feature, hashes) (NV_TBL_STORED(self, feature, hashes) && (nv_stores_t > 0 ==> (nv_store_k <= max_kbest && NV_IDENT(nv_store_score_t, nv_kb_score_g) \
+#define NV_KB_STORED(self, feature, hashes) (NV_TBL_STORED(self, feature, hashes) && (nv_stores_t > 0 ==> (nv_store_k <= NV_LOOPBOUND_tbl_score_kbest_2 && NV_IDENT(nv_store_score_t, nv_kb_score_g) \
   && (nv_tr < nv_store_k ==> NV_IDENT((self)->m_tables.g, nv_const_g)))))
 double nv_kb_score_g;
 #define NV_CONTRACT_tbl_score_kbest NV_TBL_REQ __CPROVER_requires(NV_CONST_DEF(self) && max_kbest <= self->bins) NV_TBL_ASSIGNS \
@@ -196,16 +196,17 @@ __CPROVER_ensures((nv_stores_t > 0 && nv_tr < nv_store_k) ==> NV_IDENT(self->m_t
 __CPROVER_ensures(nv_stores_t == 0 ==> (NV_IDENT(self->m_score, __CPROVER_old(self->m_score)) && self->m_feature == __CPROVER_old(self->m_feature) && self->m_hashes.n == __CPROVER_old(self->m_hashes.n)))
 #define NV_LOOP_tbl_score_kbest_1 \
 __CPROVER_assigns(bin, rss, NV_RED_GHOST) __CPROVER_loop_invariant(0 <= bin && bin <= bins && bins == self->bins) __CPROVER_decreases(bins - bin)
+/* the k-best loop's counter and bound are named by their role (NV_LOOPVAR / NV_LOOPBOUND): the source may call them anything */
 #define NV_LOOP_tbl_score_kbest_2 \
-__CPROVER_assigns(kbest, rss, self->m_score, self->m_feature, self->m_hashes.n, self->m_hashes.g, self->m_hash2tables.n, self->m_hash2tables.g, self->m_tables.rows, self->m_tables.outs, \
+__CPROVER_assigns(NV_LOOPVAR_tbl_score_kbest_2, rss, self->m_score, self->m_feature, self->m_hashes.n, self->m_hashes.g, self->m_hash2tables.n, self->m_hash2tables.g, self->m_tables.rows, self->m_tables.outs, \
   self->m_tables.g, nv_other, nv_other_u, nv_ms_calls, nv_ms_k, nv_ms_n, nv_ms_score, nv_stores_t, nv_store_k, nv_store_score_t, nv_kb_score_g) \
-__CPROVER_loop_invariant(1 <= kbest && kbest <= max_kbest + 1 && max_kbest <= self->bins && bins == self->bins && 0 <= nv_ms_calls && 0 <= nv_stores_t) \
-__CPROVER_loop_invariant(NV_KB_STORED(self, feature, hashes) && (nv_stores_t > 0 ==> nv_store_k < kbest)) \
+__CPROVER_loop_invariant(1 <= NV_LOOPVAR_tbl_score_kbest_2 && NV_LOOPVAR_tbl_score_kbest_2 <= NV_LOOPBOUND_tbl_score_kbest_2 + 1 && NV_LOOPBOUND_tbl_score_kbest_2 <= self->bins && bins == self->bins && 0 <= nv_ms_calls && 0 <= nv_stores_t) \
+__CPROVER_loop_invariant(NV_KB_STORED(self, feature, hashes) && (nv_stores_t > 0 ==> nv_store_k < NV_LOOPVAR_tbl_score_kbest_2)) \
 __CPROVER_loop_invariant(nv_stores_t == 0 ==> (NV_IDENT(self->m_score, __CPROVER_loop_entry(self->m_score)) && self->m_feature == __CPROVER_loop_entry(self->m_feature) \
    && self->m_hashes.n == __CPROVER_loop_entry(self->m_hashes.n))) \
-__CPROVER_decreases(max_kbest + 1 - kbest)
+__CPROVER_decreases(NV_LOOPBOUND_tbl_score_kbest_2 + 1 - NV_LOOPVAR_tbl_score_kbest_2)
 #define NV_LOOP_tbl_score_kbest_3 \
 __CPROVER_assigns(fv, self->m_hashes.g, self->m_tables.g, nv_other, nv_other_u) \
-__CPROVER_loop_invariant(0 <= fv && fv <= kbest && self->m_hashes.n == kbest && self->m_tables.rows == kbest && self->m_tables.outs == self->outs) \
+__CPROVER_loop_invariant(0 <= fv && fv <= NV_LOOPVAR_tbl_score_kbest_2 && self->m_hashes.n == NV_LOOPVAR_tbl_score_kbest_2 && self->m_tables.rows == NV_LOOPVAR_tbl_score_kbest_2 && self->m_tables.outs == self->outs) \
 __CPROVER_loop_invariant(fv > nv_tr ==> (self->m_hashes.g == hashes->g && NV_IDENT(self->m_tables.g, nv_const_g))) \
-__CPROVER_decreases(kbest - fv)
+__CPROVER_decreases(NV_LOOPVAR_tbl_score_kbest_2 - fv)
